@@ -69,7 +69,10 @@ func genS(t *rapid.T) (SCase, *env.Env) {
 	for i := 0; i < np; i++ {
 		p := Pattern{Cycle: rapid.IntRange(1, maxCycle).Draw(t, "cycle"), Rsq: rapid.IntRange(0, 5).Draw(t, "rsq"),
 			Code: rapid.SampledFrom([]int{400, 404, 410, 429, 500, 503, 599}).Draw(t, "code")}
-		switch rapid.IntRange(0, 3).Draw(t, "repf") {
+		switch rapid.IntRange(0, 4).Draw(t, "repf") {
+		case 4:
+			// an id that merely contains the requested representation's id names another representation: no match
+			p.Rep = rapid.SampledFrom([]string{rep.ID + "0", "x" + rep.ID, rep.ID + "_hd"}).Draw(t, "superid")
 		case 0:
 			p.Rep = rep.ID
 		case 1:
